@@ -116,6 +116,24 @@ pub fn generate(seed: u64, thorough: bool, sink: &mut Sink) -> Vec<String> {
   let mut scratch = Sink::new();
   let per = if thorough { 3000 } else { 250 };
   let take = |cases: Vec<String>, n: usize| -> Vec<String> { let k = cases.len(); if k <= n { cases } else { let step = k / n; cases.into_iter().step_by(step.max(1)).take(n).collect() } };
+  // every operator on every pair of operand forms (scalar, 1x1, row, column, square, rectangular; f64, bool and one
+  // integer kind), re-evaluated once and three times: a kernel that accumulates into its output instead of
+  // overwriting it is right the first time and wrong on every odd re-evaluation
+  {
+    let shape = |o: &str| -> String { let p: Vec<&str> = o.split('|').collect(); if p[0] == "S" { "S".to_string() } else { let (r, c): (usize, usize) = (p[1].parse().unwrap_or(0), p[2].parse().unwrap_or(0));
+      (if r == 1 && c == 1 { "1x1" } else if r == 1 { "row" } else if c == 1 { "col" } else if r == c { "sq" } else { "rect" }).to_string() } };
+    let mut seen: std::collections::HashMap<String, u32> = std::collections::HashMap::new();
+    let mut picked: Vec<String> = vec![];
+    for c in crate::c01::generate(seed, true, &mut scratch) {
+      let f: Vec<&str> = c.split('\t').collect();
+      if f[0] != "binop" || f.len() < 5 { continue; }
+      if !(f[2] == "f64" || f[2] == "bool" || f[2] == "u8") { continue; }
+      let key = format!("{}|{}|{}|{}", f[1], f[2], shape(f[3]), shape(f[4]));
+      // up to four cases of a form pair: the sizes of some are deliberately incompatible (those do not evaluate)
+      let n = seen.entry(key).or_insert(0); if *n < 4 { *n += 1; picked.push(crate::c01::source(&c)); }
+    }
+    for (i, s) in picked.iter().enumerate() { for k in [if i % 2 == 0 { 1u64 } else { 3 }] { sink.hit("resolve:operator-forms"); cases.push(format!("resolve\t{}\toperator-forms\t{}", k, hexs(&s))); } }
+  }
   let mut push = |class: &str, srcs: Vec<String>, rng: &mut Rng, sink: &mut Sink| { for s in srcs { sink.hit(&format!("resolve:{}", class)); let k = rng.below(4); cases.push(format!("resolve\t{}\t{}\t{}", k, class, hexs(&s))); } };
   push("operators", take(crate::c01::generate(seed, thorough, &mut scratch), per * 3).iter().map(|c| crate::c01::source(c)).collect(), &mut rng, sink);
   push("indexing", take(crate::c03::generate(seed, thorough, &mut scratch), per).iter().map(|c| crate::c03::source(c)).collect(), &mut rng, sink);
